@@ -89,3 +89,84 @@ Proof.
   { exists (mkT 0 1 3). split; [vm_compute; auto|]. cbn. auto 10. }
   vm_compute; reflexivity.
 Qed.
+
+(* ---------- one run over several directories (GC/Multi.v: the loops of main) ---------- *)
+From SL Require Import GC.Multi GC.MultiProofs.
+
+(* A run over the logs of a config and the mirrored logs of its witness cleans every directory as
+   if it were alone: what the run removes from its i-th directory is what the single-directory
+   model removes with THAT directory's own checkpoint size, or nothing (the process had ended
+   before it got there: fatalError on an earlier log, or a panic). *)
+Theorem C18_run_each_directory_alone_or_untouched : forall ds i d, nth_error ds i = Some d ->
+  deleted_in_run ds i = fst (clean_one d) \/ deleted_in_run ds i = [].
+Proof. exact clean_run_each. Qed.
+Print Assumptions C18_run_each_directory_alone_or_untouched.
+
+(* cleaning a list of directories = cleaning each one, when the run is not cut short *)
+Theorem C18_run_is_map : forall ds, no_abort ds ->
+  fst (clean_run ds) = map (fun d => fst (clean_one d)) ds.
+Proof. exact clean_run_all. Qed.
+Print Assumptions C18_run_is_map.
+
+(* independence: the result for a directory does not depend on which other directories (of
+   whatever sizes, before or after it) were cleaned in the same run *)
+Theorem C18_run_independent : forall ds i d, no_abort ds -> nth_error ds i = Some d ->
+  deleted_in_run ds i = deleted_in_run [d] 0.
+Proof. exact clean_run_independent. Qed.
+Print Assumptions C18_run_independent.
+
+(* C18_only for every directory of a run, with the directory's own size *)
+Theorem C18_run_only : forall ds i d p, nth_error ds i = Some d -> In p (deleted_in_run ds i) ->
+  exists size, ti_size d = Some size /\
+  exists p1 t1, parse_fl (ti_fl d) p1 = Some t1 /\ strictly_left size t1 /\
+    ((t_L t1 < wrap_level)%Z -> (t_L t1 <= 6)%Z /\ (t_N t1 < size / tile_span (t_L t1))%Z) /\
+    (p = p1 ++ dotp \/
+     exists t2, parse_fl (ti_fl d) p = Some t2 /\ (1 <= t_W t2 < 256)%Z /\
+       p = p1 ++ dotps ++ decZ (t_W t2) /\ t1 = mkTile 8 (t_L t2) (t_N t2) 256 /\
+       exists sz, stat (ti_root d) p1 = Some (File sz) /\ 0 < sz).
+Proof. exact c18_run_only. Qed.
+Print Assumptions C18_run_only.
+
+(* C18_readable for every directory of a run: the tree at the directory's own published size (and
+   any larger one: lock store ahead, mirror entries past the mirror checkpoint) stays complete *)
+Theorem C18_run_readable : forall ds i d size n, nth_error ds i = Some d ->
+  ti_size d = Some size -> (size <= Z.of_N n)%Z ->
+  complete (ti_fl d) (ti_root d) n -> complete_after_run ds i d n.
+Proof. exact c18_run_readable. Qed.
+Print Assumptions C18_run_readable.
+
+(* non-vacuity: a log published at 1000 followed, in the same run, by a log published at 300 whose
+   tiles are already uploaded up to 600 (full tile 001 beside the partial 001.p/44 the published
+   tree needs). The second directory loses only the superseded 000.p/200; 001.p/44 stays. *)
+Definition ex_big : node :=
+  Dir [(s2b "tile", Dir [(s2b "0", Dir [(s2b "000", File 8192); (s2b "000.p", Dir [(s2b "5", File 160)]);
+                                        (s2b "001", File 8192); (s2b "002", File 8192);
+                                        (s2b "003.p", Dir [(s2b "232", File 7424)])])])].
+Definition ex_small : node :=
+  Dir [(s2b "tile", Dir [(s2b "0", Dir [(s2b "000", File 8192); (s2b "000.p", Dir [(s2b "200", File 6400)]);
+                                        (s2b "001", File 8192); (s2b "001.p", Dir [(s2b "44", File 1408)]);
+                                        (s2b "002.p", Dir [(s2b "88", File 2816)])])])].
+Definition ex_run : list tree_in :=
+  [mkTreeIn FlLog (Some 1000%Z) false ex_big; mkTreeIn FlLog (Some 300%Z) false ex_small].
+
+Example C18_run_example :
+  clean_run ex_run =
+    ([[s2b "tile/0/000.p/5"; s2b "tile/0/000.p"]; [s2b "tile/0/000.p/200"; s2b "tile/0/000.p"]], Ok)
+  /\ no_abort ex_run
+  /\ nth_error ex_run 1 = Some (mkTreeIn FlLog (Some 300%Z) false ex_small)
+  /\ needed_tile 300 (mkTile 8 0 1 44)
+  /\ parse_fl FlLog (s2b "tile/0/001.p/44") = Some (mkTile 8 0 1 44)
+  /\ file_present ex_small (s2b "tile/0/001.p/44")
+  /\ survives (deleted_in_run ex_run 1) (s2b "tile/0/001.p/44").
+Proof.
+  split; [vm_compute; reflexivity|].
+  split; [repeat constructor; vm_compute; discriminate|].
+  split; [reflexivity|].
+  assert (Nd : needed_tile 300 (mkTile 8 0 1 44)).
+  { exists (mkT 0 1 44). split; [vm_compute; auto|]. cbn. auto 10. }
+  split; [exact Nd|].
+  split; [vm_compute; reflexivity|].
+  split; [exists 1408; vm_compute; reflexivity|].
+  apply (c18_run_preserves ex_run 1%nat (mkTreeIn FlLog (Some 300%Z) false ex_small) 300%Z 300 (mkTile 8 0 1 44));
+    [reflexivity|reflexivity|lia|exact Nd|vm_compute; reflexivity].
+Qed.
